@@ -35,6 +35,21 @@ def build_nx(n, classes, edges, gid_salt=''):
     return g
 
 
+DIRECTED_UP_TO = 3
+
+
+def directed_graphml(n, classes, edges, gid):
+    """the same graph the way a Neo4j/yEd export writes it: directed edges (here: from the higher to the lower node) and the
+    graph id on every node - to be imported keeping that id"""
+    g = nx.DiGraph()
+    for i in range(n):
+        g.add_node(f'k{i}', NodeID=IDS[i], Class=classes[i], Name=f'n{IDS[i]}', Type='t', GraphID=gid)
+    for (i, j), r in edges.items():
+        if r:
+            g.add_edge(f'k{max(i, j)}', f'k{min(i, j)}', Class=r)
+    return '\n'.join(nx.generate_graphml(g))
+
+
 def decode(case):
     vocab, n, cls_idx, edge_idx = case
     names = VOCABS[vocab]
@@ -126,6 +141,9 @@ def eval_graph(case):
         imp.storage.add_graph('G', build_nx(n, classes, edges))
         imp.storage.add_graph('DECOY2', build_nx(n, decoy_classes, decoy_edges, 'y'))
         graphs[flavour] = cls(graph_id='G', importer=imp)
+        if n <= DIRECTED_UP_TO:
+            # the same graph arriving as a directed GraphML document through the id-keeping import
+            graphs[flavour + '/directed-import'] = imp.import_graph_from_string_direct(graph_string=directed_graphml(n, classes, edges, 'GD'))
 
     for flavour, g in graphs.items():
         def call(q, fn, **kw):
@@ -345,6 +363,8 @@ def all_graphs(vocab, n, max_edges=None, sorted_classes=False):
 
 
 def run(report):
+    global DIRECTED_UP_TO
+    DIRECTED_UP_TO = 2 if report.tier == "quick" else 5
     cases = []
     if report.tier == 'quick':
         for vocab in ('ns-cp', 'cp-link', 'node-comp'):
